@@ -12,6 +12,7 @@
 //! (P-Code semantics, gamma / inv of intervals, segment lookup), not from the code under test.
 mod c01;
 mod c02;
+mod c05;
 mod c07;
 mod c19;
 mod c24;
@@ -75,6 +76,8 @@ fn search(twin: &str, case: Option<&str>, seed: u64) -> Option<Value> {
         c01::search(twin, case, seed)
     } else if twin.starts_with("c02.") || twin.starts_with("c03.") || twin.starts_with("c04.") {
         c02::search(twin, case, seed)
+    } else if twin.starts_with("c05.") {
+        c05::search(twin, case, seed)
     } else if twin.starts_with("c07.") {
         c07::search(twin, case, seed)
     } else if twin.starts_with("c19.") {
@@ -91,6 +94,8 @@ fn replay(twin: &str, input: &Value) -> Value {
         c01::replay(twin, input)
     } else if twin.starts_with("c02.") || twin.starts_with("c03.") || twin.starts_with("c04.") {
         c02::replay(twin, input)
+    } else if twin.starts_with("c05.") {
+        c05::replay(twin, input)
     } else if twin.starts_with("c07.") {
         c07::replay(twin, input)
     } else if twin.starts_with("c19.") {
@@ -107,6 +112,8 @@ fn sweep(twin: &str, seed: u64) -> Value {
         c01::sweep(twin, seed)
     } else if twin.starts_with("c02.") || twin.starts_with("c03.") || twin.starts_with("c04.") {
         c02::sweep(twin, seed)
+    } else if twin.starts_with("c05.") {
+        c05::sweep(twin, seed)
     } else if twin.starts_with("c07.") {
         c07::sweep(twin, seed)
     } else if twin.starts_with("c19.") {
